@@ -38,6 +38,7 @@ def _make():
 
 
 _FACTORY_CLASSES = []
+_BY_INNER = {}
 _COUNT = [0]
 
 
@@ -75,10 +76,21 @@ def wrap(inner):
     hold the wrapped schema, or a class made by a factory for this very schema"""
     import d42
     _make()
-    _COUNT[0] += 1
-    if _COUNT[0] % 2:
+    # the same declaration is always written the same way (two builds of it must be equal, and a
+    # class is a different type from every other class): the way is chosen by the wrapped schema
+    # (keyed by structure, not by repr: a forwarding type prints like what it wraps)
+    import json
+    from . import absmap
+    try:
+        key = json.dumps(absmap.a_schema(inner), sort_keys=True, default=str)
+    except absmap.Unrepresentable:
         return d42.schema.verif_fwd(inner)
-    return _factory(inner)()
+    if sum(key.encode("utf-8", "replace")) % 2:
+        return d42.schema.verif_fwd(inner)
+    cls = _BY_INNER.get(key)
+    if cls is None:
+        cls = _BY_INNER[key] = _factory(inner)
+    return cls()
 
 
 def unwrap(real):
